@@ -9,104 +9,161 @@ import FsModel.PathSpec
 import FsProofs.Lemmas.PathLemmas
 
 namespace Fs.C12
-open Fs Fs.Path Fs.PathSpec
+open Fs Fs.Path Fs.PathSpec Fs.PathLemmas
 
 /-- a path built from clean components, absolute or relative -/
 def mk (absolute : Bool) (cs : List Str) : Str :=
   (if absolute then ['/'] else []) ++ joinSlash cs
 
+theorem mk_eq_mkp (a : Bool) (cs : List Str) : mk a cs = mkp a cs := rfl
+
 /-! ## normpath -/
 
 /-- normpath equals the component-wise resolution of its input (fast path included). -/
 theorem normpath_eq_spec (p : Str) : normpath p = specNorm p := by
-  sorry
+  exact normpath_eq_specNorm p
 
 /-- it raises IllegalBackReference exactly when that resolution climbs above the start -/
 theorem normpath_err_iff_climbs (p : Str) :
     normpath p = .err .IllegalBackReference ↔ climbs (splitSlash p) := by
-  sorry
+  rw [normpath_eq_specNorm, specNorm, climbs]
+  cases resolve (splitSlash p) <;> simp
 
 theorem normpath_err_only_backref (p : Str) (e : Err) (h : normpath p = .err e) :
     e = .IllegalBackReference := by
-  sorry
+  rw [normpath_eq_specNorm, specNorm] at h
+  cases hr : resolve (splitSlash p) <;> rw [hr] at h <;> simp at h
+  exact h.symm
 
 /-- the result has no `.`, `..` or empty component -/
 theorem normpath_clean (p q : Str) (h : normpath p = .ok q) :
     ∃ cs, Clean cs ∧ q = mk (startsWithSlash p) cs := by
-  sorry
+  exact normpath_ok_clean p q h
 
 theorem normpath_idem (p q : Str) (h : normpath p = .ok q) : normpath q = .ok q := by
-  sorry
+  obtain ⟨cs, hc, rfl⟩ := normpath_ok_clean p q h
+  exact normpath_mkp hc
 
 /-- normalised paths are exactly the (absolute or relative) joins of clean components -/
 theorem norm_iff_clean (q : Str) : Norm q ↔ ∃ a cs, Clean cs ∧ q = mk a cs := by
-  sorry
+  constructor
+  · intro h
+    obtain ⟨cs, hc, hq⟩ := normpath_ok_clean q q h
+    exact ⟨_, cs, hc, hq⟩
+  · rintro ⟨a, cs, hc, rfl⟩
+    exact normpath_mkp hc
 
 /-! ## inverses on normalised paths -/
 
 theorem iteratepath_mk (a : Bool) (cs : List Str) (h : Clean cs) :
     iteratepath (mk a cs) = .ok cs := by
-  sorry
+  rw [mk_eq_mkp]
+  unfold iteratepath
+  rw [normpath_mkp h, bind_ok]
+  simp only [relpath, lstripSlash_mkp h, pure_eq]
+  by_cases hc : cs = []
+  · subst hc; rfl
+  · have : joinWith '/' cs ≠ [] := fun e => hc ((join_clean_eq_nil_iff h).1 e)
+    simp [this, splitSlash, splitOn_join_clean h hc]
 
 theorem split_mk_snoc (a : Bool) (cs : List Str) (c : Str) (h : Clean (cs ++ [c])) :
     split (mk a (cs ++ [c])) = (if cs = [] then (if a then ['/'] else []) else mk a cs, c) := by
-  sorry
+  simp only [mk_eq_mkp]
+  rw [split_mkp_snoc a cs c h]
+  by_cases hc : cs = []
+  · subst hc; cases a <;> rfl
+  · simp [hc]
 
 theorem combine_dirname_basename (q : Str) (h : Norm q) :
     combine (dirname q) (basename q) = q := by
-  sorry
+  obtain ⟨cs, hc, hq⟩ := normpath_ok_clean q q h
+  rw [hq]
+  exact combine_split_mkp _ cs hc
 
 theorem join_dirname_basename (q : Str) (h : Norm q) :
     join [dirname q, basename q] = .ok q := by
-  sorry
+  obtain ⟨cs, hc, hq⟩ := normpath_ok_clean q q h
+  rw [hq]
+  exact join_split_mkp _ cs hc
 
 theorem recursepath_eq_prefixes (a : Bool) (cs : List Str) (h : Clean cs) :
     recursepath (mk a cs) false = .ok ((List.range (cs.length + 1)).map fun i => mk true (cs.take i)) := by
-  sorry
+  exact recursepath_mkp a cs h
 
 theorem recursepath_reverse (p : Str) (l : List Str) (h : recursepath p false = .ok l) :
     recursepath p true = .ok l.reverse := by
-  sorry
+  unfold recursepath at h ⊢
+  split at h
+  · next hp => simp only [hp, if_true]; cases h; rfl
+  · next hp =>
+    simp only [hp]
+    cases hn : normpath p with
+    | err e => rw [hn] at h; cases h
+    | ok n =>
+      rw [hn] at h
+      simp only [bind_ok, pure_eq, Bool.false_eq_true, if_false, Res.ok.injEq] at h ⊢
+      simp only [if_true, h]
 
 theorem parts_eq (a : Bool) (cs : List Str) (h : Clean cs) :
     parts (mk a cs) = .ok ((if a then ['/'] else ['.', '/']) :: cs) := by
-  sorry
+  rw [mk_eq_mkp]
+  unfold parts
+  rw [normpath_mkp h, bind_ok]
+  simp only [stripSlash_mkp h, startsWithSlash_mkp h, pure_eq]
+  by_cases hc : cs = []
+  · subst hc; simp [joinWith]
+  · have : joinWith '/' cs ≠ [] := fun e => hc ((join_clean_eq_nil_iff h).1 e)
+    simp [this, splitSlash, splitOn_join_clean h hc]
 
 /-- abspath / relpath only add or strip the leading slash -/
 theorem abspath_relpath (a : Bool) (cs : List Str) (h : Clean cs) :
     abspath (mk a cs) = mk true cs ∧ relpath (mk a cs) = mk false cs := by
-  sorry
+  simp only [mk_eq_mkp]
+  refine ⟨?_, ?_⟩
+  · unfold abspath
+    rw [startsWithSlash_mkp h]
+    cases a <;> simp [mkp]
+  · rw [relpath, lstripSlash_mkp h]; simp [mkp]
 
 /-! ## whole-component comparisons -/
 
 theorem isbase_iff_component_prefix (a b : Bool) (as bs : List Str) (ha : Clean as) (hb : Clean bs) :
     isbase (mk a as) (mk b bs) = true ↔ as <+: bs := by
-  sorry
+  exact isbase_mkp_iff a b as bs ha hb
 
 theorem not_isbase_sibling_prefix : isbase ['/', 'a'] ['/', 'a', 'b'] = false := by decide
 
 theorem isparent_iff_component_prefix (a : Bool) (as bs : List Str) (ha : Clean as) (hb : Clean bs) :
     isparent (mk a as) (mk a bs) = true ↔ as <+: bs := by
-  sorry
+  exact isparent_mkp_iff a as bs ha hb
 
 theorem not_isparent_sibling_prefix : isparent ['/', 'a'] ['/', 'a', 'b'] = false := by decide
 
 theorem frombase_append (a : Bool) (as bs : List Str) (ha : Clean as) (hb : Clean bs)
     (hp : as <+: bs) : ∃ r, frombase (mk a as) (mk a bs) = .ok r ∧ mk a as ++ r = mk a bs := by
-  sorry
+  have hpar := (isparent_mkp_iff a as bs ha hb).2 hp
+  obtain ⟨t, ht⟩ := mkp_prefix (a := a) hp
+  refine ⟨t, ?_, ht⟩
+  simp only [mk_eq_mkp, frombase, hpar, Bool.not_true, Bool.false_eq_true, if_false]
+  rw [← ht, List.drop_left]
 
 theorem frombase_rejects (a : Bool) (as bs : List Str) (ha : Clean as) (hb : Clean bs)
     (hp : ¬ as <+: bs) : frombase (mk a as) (mk a bs) = .err .ValueError := by
-  sorry
+  have hpar : isparent (mkp a as) (mkp a bs) = false := by
+    rw [Bool.eq_false_iff]; intro h; exact hp ((isparent_mkp_iff a as bs ha hb).1 h)
+  simp [mk_eq_mkp, frombase, hpar]
 
 theorem relativefrom_resolves (a b : Bool) (as bs : List Str) (ha : Clean as) (hb : Clean bs) :
     ∃ r, relativefrom (mk a as) (mk b bs) = .ok r ∧ resolve (as ++ splitSlash r) = some bs := by
-  sorry
+  refine ⟨_, ?_, relativefrom_core as bs ha hb⟩
+  unfold relativefrom
+  rw [iteratepath_mk a as ha, iteratepath_mk b bs hb]
+  rfl
 
 theorem issamedir_iff_init_eq (a : Bool) (as bs : List Str) (ha : Clean as) (hb : Clean bs)
     (hna : as ≠ []) (hnb : bs ≠ []) :
     issamedir (mk a as) (mk a bs) = .ok (decide (as.dropLast = bs.dropLast)) := by
-  sorry
+  exact issamedir_mkp a as bs ha hb hna hnb
 
 /-! ## non-vacuity -/
 
